@@ -76,6 +76,10 @@ type Gen struct {
 	instID   int
 	rangeSt  map[ssa.Value]*rangeState
 	root     *Gen
+	deferred map[string]*deferredObl
+	deferredOrd []string
+	retReach []Term
+	curInstr ssa.Instruction
 }
 
 // shared is the script under construction; inlined callees share it with
@@ -291,6 +295,15 @@ func (g *Gen) run() {
 	order := g.topoOrder()
 	for _, b := range order {
 		g.block(b)
+	}
+	// one obligation per postcondition / invariant clause, covering every
+	// return point / back edge (names independent of the number of returns)
+	for _, k := range g.deferredOrd {
+		d := g.deferred[k]
+		g.addObl(d.kind, d.label, "true", "(and "+strings.Join(d.parts, " ")+" true)", d.src, false)
+	}
+	if len(g.retReach) > 0 {
+		g.addObl("cover", "return", "(or "+strings.Join(g.retReach, " ")+" false)", "true", g.con.Src, true)
 	}
 	if g.retBlocks == 0 && !hasOpt(g.con, "noreturn") {
 		// function never returns normally (e.g. infinite loop) — fine
@@ -639,7 +652,7 @@ func (g *Gen) loopStep(li *loopInfo, from *ssa.BasicBlock, st *State) {
 	}
 	for _, inv := range invs {
 		goal := g.evalBool(env, inv.Expr, inv.Src)
-		g.addObl("inv.step", fmt.Sprintf("L%d.%s", li.ord, inv.Label), ec, goal, inv.Src, false)
+		g.deferObl("inv.step", fmt.Sprintf("L%d.%s", li.ord, inv.Label), ec, goal, inv.Src)
 	}
 }
 
@@ -692,3 +705,24 @@ func GenFunctionInfo(prog *Program, u *Universe, fn *ssa.Function, con *spec.Fun
 }
 
 var lastShared *shared
+
+type deferredObl struct {
+	kind, label, src string
+	parts            []string
+}
+
+// deferObl records one conjunct (reach => goal) of an obligation that is
+// emitted once at the end of the function.
+func (g *Gen) deferObl(kind, label string, reach, goal Term, src string) {
+	if g.deferred == nil {
+		g.deferred = map[string]*deferredObl{}
+	}
+	k := kind + "." + label
+	d := g.deferred[k]
+	if d == nil {
+		d = &deferredObl{kind: kind, label: label, src: src}
+		g.deferred[k] = d
+		g.deferredOrd = append(g.deferredOrd, k)
+	}
+	d.parts = append(d.parts, fmt.Sprintf("(=> %s %s)", reach, goal))
+}
